@@ -1,0 +1,51 @@
+//go:build verif
+
+// Read-only accessors used by the external verification harness (/verif). Compiled only with
+// `-tags verif`; nothing here is reachable from a normal build.
+
+package dicescript
+
+import (
+	"fmt"
+	"sort"
+	"strings"
+	"sync/atomic"
+)
+
+func verifEntryState(e *entryValueMap) string {
+	p := atomic.LoadPointer(&e.p)
+	if p == nil {
+		return "nil"
+	}
+	if p == expungedValueMap {
+		return "exp"
+	}
+	return "val"
+}
+
+// VerifValueMapShape renders the internal two-level state of a ValueMap:
+// "read{k:state,...} amended=<bool> dirty{k:state,...}|dirty=nil misses=<n>" with keys sorted.
+func VerifValueMapShape(m *ValueMap) string {
+	m.mu.Lock()
+	defer m.mu.Unlock()
+	read, _ := m.read.Load().(readOnlyValueMap)
+	var rk []string
+	for k, e := range read.m {
+		rk = append(rk, fmt.Sprintf("%x:%s", k, verifEntryState(e)))
+	}
+	sort.Strings(rk)
+	d := "dirty=nil"
+	if m.dirty != nil {
+		var dk []string
+		for k, e := range m.dirty {
+			same := ""
+			if re, ok := read.m[k]; ok && re != e {
+				same = "!alias"
+			}
+			dk = append(dk, fmt.Sprintf("%x:%s%s", k, verifEntryState(e), same))
+		}
+		sort.Strings(dk)
+		d = "dirty{" + strings.Join(dk, ",") + "}"
+	}
+	return fmt.Sprintf("read{%s} amended=%v %s misses=%d", strings.Join(rk, ","), read.amended, d, m.misses)
+}
